@@ -1,3 +1,5 @@
 #!/bin/sh
-# usage: tools/try.sh refactors/R11 [property]  -- apply a stored patch to a scratch copy and show what the checker reports
-d=/tmp/w/$(basename $1); rm -rf $d; mkdir -p /tmp/w; rsync -a --exclude .git /repo/ $d/ && patch -p1 -s -d $d -i /verif/$1/patch.diff && /verif/bin/mocverif -repo $d -property ${2:-all} -no-selftest -evidence /tmp/w/ev 2>&1 | grep -E "VIOLATED|UNDECIDED" | cut -c1-${3:-330}
+# usage: tools/try.sh refactors/R11 [property] [width] -- apply a stored patch to a scratch copy and show what the checker reports
+# MV=/path/to/binary and W=/scratch/dir override the checker binary and the scratch root
+W=${W:-/tmp/w}; MV=${MV:-/verif/bin/mocverif}
+d=$W/$(basename $1); rm -rf $d; mkdir -p $W; rsync -a --exclude .git /repo/ $d/ && patch -p1 -s -d $d -i /verif/$1/patch.diff && $MV -repo $d -property ${2:-all} -no-selftest -evidence $W/ev 2>&1 | grep -E "VIOLATED|UNDECIDED" | cut -c1-${3:-330}
